@@ -48,11 +48,32 @@ P = {
 }
 PENDING = {
 }
+# properties whose numerical source is additionally regenerated into Lean by the kernel translator (DESIGN 9.5b/9.5c)
+TIE = {
+ 'C01': ('the GSE and APU parts of the source (emissions/gse.py, emissions/apu.py: every species, all four aircraft classes) are regenerated into Lean by the symbolic translator on every run and proved equal to the model (KernelBridge2), so the NOx/SOx splits and amount = index × fuel are also theorems about the source text (src_gse_splits, src_apu_amount_eq_index_times_fuel, src_apu_splits)',
+         'translator harness/common/pykern.py (symbolic evaluation of the source AST), validated by executing the generated definitions next to the real functions'),
+ 'C02': ('the altitude schedule of LegacyContext.__init__ and calc_starting_mass are regenerated into Lean from the source on every run and proved equal to the model (src_schedule_is_model, src_schedule_clamps, src_starting_mass_le_mtom, src_starting_mass_is_model)',
+         'translator harness/common/pykern.py, validated against real LegacyContext / LegacyBuilder objects'),
+ 'C12': ('the ISA functions, EI_SOx, FFM2, the BFFM2 humidity correction and regression evaluation, the NOx speciation percentages, the HC/CO ambient factor and the MEEM compressor chain are regenerated into Lean from the source on every run and proved equal to the model (KernelBridge), so the inverses, sulfur conservation, speciation sums etc. are also theorems about the source text (src_*); the two open findings are theorems of the form "the source is the as-is variant or the intended variant"',
+         'translator harness/common/pykern.py, validated by executing the generated definitions next to the real functions (inputs and local variables captured from the live frames)'),
+ 'C16': ('the vector sum at the end of Weather.get_ground_speed and the ISA pressure function are regenerated into Lean from the source on every run; src_ground_speed_variant proves the source is the as-is or the intended decomposition and src_zero_wind_and_bounds holds for both',
+         'translator harness/common/pykern.py, validated against a real Weather object'),
+ 'C19': ('the thrust / fuel-flow / specific-ground-range methods of BADA/model.py (three engine classes, inheritance and engine dispatch resolved) are regenerated into Lean from the source on every run and proved equal to the model (KernelBridge: bada_thrust, bada_sgr, …), so thrust ≤ max, negative thrust replaced and the cruise factor are also theorems about the source text (src_*)',
+         'translator harness/common/pykern.py, validated by executing the generated definitions next to the real methods'),
+ 'C20': ('the ownership code of TrajectoryStore.__init__ (helpers inlined, early returns eliminated) is regenerated into a guard program on every run and mutual exclusion is re-proved for it by a kernel-checked invariant set',
+         'guard translator harness/common/translator.py'),
+}
 import sys
 done = [p for p in P if (ROOT / 'harness' / f'{p.lower()}.py').exists() and (ROOT / 'lean' / 'AeicProofs' / 'Properties' / f'{p}.lean').exists()]
 checks = []
 for pid in sorted(done):
     area, text, note = P[pid]
+    tech = 'machine-checked proof in Lean 4 (model: AeicModel/' + area + ') + differential correspondence check model vs implementation'
+    if pid in TIE:
+        text = text + '; ' + TIE[pid][0]
+        note = note + '; ' + TIE[pid][1] + ' — a kernel the translator can no longer express keeps its last good translation and is then tied by sampling only (reported in evidence as source_tie_stale)'
+        tech = ('machine-checked proof in Lean 4 (model: AeicModel/' + area + '; numerical source regenerated into Lean by a translator on every run and '
+                'proved equal to the model) + differential correspondence check model vs implementation')
     checks.append({
         'property_id': pid,
         'quick_cmd': f'./check {pid} --tier quick',
@@ -62,7 +83,7 @@ for pid in sorted(done):
         'engine': 'lean4-proof+correspondence',
         'level_claimed': {'category': 'proof', 'text': text, 'design_ref': f'DESIGN.md section 3 ({pid}) and design_notes/{pid}.md'},
         'level_note': 'Trusted base: Lean 4.33 kernel; axioms propext/Classical.choice/Quot.sound only (audited per theorem on every run, leanchecker in the thorough tier); Mathlib v4.33; the hand-written model is tied to /repo by the correspondence harness run on every check (and the constants translator). ' + note,
-        'technique': 'machine-checked proof in Lean 4 (model: AeicModel/' + area + ') + differential correspondence check model vs implementation',
+        'technique': tech,
     })
 na = [{'property_id': k, 'reason': v} for k, v in sorted(PENDING.items()) if k not in done]
 for k in P:
